@@ -489,9 +489,15 @@ func (c *checker) runValues(n int) {
 		if e.ViaHistories {
 			continue
 		}
+		var keys []any
 		for i := 0; i < n; i++ {
-			c.roundtrip(e, c.generate(e, c.opts()), "random")
+			v := c.generate(e, c.opts())
+			c.roundtrip(e, v, "random")
+			if i < 3 {
+				keys = append(keys, v)
+			}
 		}
+		c.mapKeys(e, keys)
 	}
 }
 
